@@ -7,6 +7,8 @@ import MxModel.Generated.Tables
     look <name> g=u:3,x:9 | p=x,y;a=2,10;r=y:7;c=foo | p=x;a=1;r=;c=
         levels INNERMOST FIRST, `a=-` for a level that is not called
         -> `exp=<res> mx=<res>`,  res = `val N` | `cells` | `unbound`
+    refval ty=<exact type> bases=<b1,b2> iface=0|1 valid=0|1 mod=0|1 io=0|1
+        -> `path` | `none` | `literal` | `module` | `io` | `pickle`   (ParentTranslator.ref_value)
 -/
 namespace Driver.Export
 open MxModel.Export MxModel
@@ -30,6 +32,10 @@ def showTarget : Target → String
 def showRes : Res → String
   | .val v => s!"val {v}" | .cells => "cells" | .unbound => "unbound"
 
+def showEmit : Emit → String
+  | .path => "path" | .noneLit => "none" | .literal => "literal" | .importModule => "module"
+  | .ioData => "io" | .pickle => "pickle"
+
 def level (s : String) : Level :=
   let parts := (s.splitOn ";").map (fun p => p.trimAscii.toString)
   let a := field "a=" parts
@@ -47,6 +53,11 @@ def step (line : String) : String :=
     (if r then "self " else "bare ") ++
       showTarget (exportedResolve Generated.exportReplaceOrder Generated.exportDummyFor b t n) ++ " " ++
       showTarget (mxResolve b t n)
+  | "refval" :: rest =>
+    let v : PyVal := { ty := field "ty=" rest, bases := names (field "bases=" rest),
+                       iface := field "iface=" rest = "1", valid := field "valid=" rest = "1",
+                       sysmod := field "mod=" rest = "1", iospec := field "io=" rest = "1" }
+    showEmit (refValue Generated.exportLiteralTest Generated.exportLiteralTypes v Generated.exportRefValueOrder)
   | "look" :: n :: _ =>
     match line.splitOn " | " with
     | head :: lvs =>
